@@ -111,6 +111,10 @@ def run(W, chk):
     chk.expect(bool(gl), "PROV-emission-window", "guard", "chooses end-1 when end <= until", "comparison `preliminary_end_epoch <= until` not found", E.entry)
     em = vfield(vfield(E.ret, "0"), "[*]") if E.ret is not None else EMPTY
     chk.expect(exact_origins(em) == {"farm.emission_rate"}, "PROV-emission-window", "rate", "constant emission_rate per epoch", "per-epoch emission <- %s" % show(em), E.entry)
-    sk = find_rel(T.switches(), om(r"^Store\(FARMS\)\.start_epoch$"), ">", lambda v: True)
-    chk.expect(len(sk) >= 2, "CUT-farm-not-started", "calculate_rewards", "epochs before farm.start_epoch are skipped (2 comparisons)",
+    # decisions on farm.start_epoch, whether written as `if .. { continue }` (switch) or as an iterator `.filter(..)` (closure result)
+    from rules.common import pred_tree_has
+    st_cmp = lambda pn, pa: pn in ("gt", "lt", "ge", "le") and len(pa) > 1 and any(exact_origins(x) == {"Store(FARMS).start_epoch"} for x in pa[:2])   # noqa: E731
+    sk = [e for e in T.events if e.kind in ("switch", "invoke") and
+          (any(pred_tree_has(v, st_cmp) for v in e.vals) or (hasattr(e.extra.get("ret"), "atoms") and pred_tree_has(e.extra["ret"], st_cmp)))]
+    chk.expect(len(sk) >= 2, "CUT-farm-not-started", "calculate_rewards", "epochs before farm.start_epoch are skipped (%d decisions)" % len(sk),
                "start_epoch comparisons found: %d" % len(sk), W.F.get(fid).span)
